@@ -358,6 +358,18 @@ def search_extra(mode):
     for b in (1e308, 1.5e308, 8.99e307, 6.1e307, -1e308, -1.5e308, -8.99e307, 1.7976931348623157e308, -1.7976931348623157e308, 5e-324):
         ps += [ge_p(b), gt_p(b), le_p(b), lt_p(b)]
     ps += [all_p(ge_p(1e308)), all_p(le_p(-1e308)), any_p(gt_p(1.5e308))]
+    import datetime as _dt
+    from predicate.set_predicates import is_real_subset_p, is_subset_p
+    d1 = _dt.datetime(2024, 1, 15, 10, 30)
+    nest_all = is_int_p
+    nest_any = is_int_p
+    for _ in range(9):
+        nest_all, nest_any = all_p(nest_all), any_p(nest_any)
+    ps += [ge_p("2024-01-15T10:30:00"), gt_p("abcdefghijkl"), le_p("2024-01-15T10:30:00"), lt_p("mmmmmmmmmmmmmmm"), gt_p(d1), lt_p(d1),
+           ge_p(2 ** 53 + 4), gt_p(2 ** 53 + 3), ge_p(2 ** 64 + 2050), gt_p(10 ** 20 + 9000), ge_p(-(2 ** 64) - 10), le_p(2 ** 53 + 3), lt_p(-(2 ** 64)),
+           nest_any, all_p(all_p(all_p(all_p(ge_p(3)))))]
+    if mode == "true":
+        ps += [is_subset_p(set(range(11))), is_real_subset_p(set(range(11))), is_real_subset_p(set(range(12))), is_subset_p({"a", "b", "c"})]
     from predicate.standard_predicates import eq_true_p, eq_false_p
     from predicate import optimize as _opt
     ps += [eq_true_p, eq_false_p, eq_p(True), eq_p(False), PP.is_not_empty_p, _opt(~PP.is_empty_p), all_p(PP.is_not_empty_p), all_p(eq_true_p)]
